@@ -155,7 +155,8 @@ theorem effOp_isControl (f : Frame) (co : Byte) (hok : f.ok co) :
 theorem effOp_not_close (f : Frame) (co : Byte) (hok : f.ok co) : f.effOp co ≠ opClose := by
   obtain ⟨_, h2, h3⟩ := hok
   by_cases hc : f.isControl = true
-  · simp only [Frame.effOp, hc, if_true]; exact (h2 hc).2.1
+  · simp only [Frame.effOp, hc, if_true]
+    rcases (h2 hc).2.1 with h | h <;> rw [h] <;> decide
   · have hc' : f.isControl = false := by simpa using hc
     obtain ⟨_, h4⟩ := h3 hc'
     rcases h4 with h4 | ⟨h4, _⟩ <;> rw [h4] <;> decide
